@@ -1007,6 +1007,12 @@ class Engine:
             return res
         # symbolic discriminant
         key = d
+        if key not in st.assume:
+            # a test of !x after x was decided on this path (or the other way round) takes the consistent edge only: `let c = x; if !c {..}; !c` does not fork twice
+            nk = key[2][0] if (key[0] == "app" and key[1] == "Not" and len(key[2]) == 1) else ("app", "Not", (key,))
+            a = st.assume.get(nk)
+            if a is not None and a[0] == "int" and a[1] == a[2] and a[1] in (0, 1):
+                st.assume[key] = vint(1 - a[1])
         if key in st.assume:
             a = st.assume[key]
             if a[0] == "int":
